@@ -160,6 +160,8 @@ fn class_set(e: &'static Encoding, rng: &mut Rng) -> Vec<u32> {
             v.push((x + d).saturating_sub(2));
         }
     }
+    // boundary values of the source's own comparison constants
+    v.extend_from_slice(source_constants());
     // what the decoder can produce is what the encoder is most likely to map
     let mut n = 0;
     while n < 1400 {
